@@ -20,10 +20,13 @@ def main():
         "engines": [{"name": "lean-proof", "path": "/verif/lean", "serves_properties": [],
                      "kind_free_text": "Lean 4 theorems about definitions regenerated from /repo by /verif/xlate (clang AST -> Lean) and about hand-written executable models tied to the code by a differential correspondence check (compiled Lean driver vs C++ harness built from /repo's working tree)"}],
         "checks": [], "x_harnesses": [], "notes": "see DESIGN.md; check.py <id> --tier quick|thorough [--replay file]", "not_applicable": []}
+    # only checks the integrator has run and accepted are claimed (checks/claimed.txt, one property id per line)
+    try: claimed = set(open(os.path.join(VERIF, 'checks', 'claimed.txt')).read().split())
+    except Exception: claimed = set()
     for p in props:
         i = p['id']; f = os.path.join(VERIF, 'checks', i.lower() + '.py')
         meta = None
-        if os.path.exists(f):
+        if os.path.exists(f) and i in claimed:
             mod = importlib.import_module('checks.' + i.lower()); meta = getattr(mod, 'META', None)
         if meta and meta.get('claimed', True):
             man['engines'][0]['serves_properties'].append(i)
